@@ -36,6 +36,7 @@ def markets(rnd, n, sid="M"):
         tid = [0]
         created = []
         orders = 4
+        restarts = rnd.random() < 0.35
 
         def nid():
             tid[0] += 1
@@ -52,6 +53,15 @@ def markets(rnd, n, sid="M"):
                         t.update(type="SellCoin", args={"sell": c, "buy": rnd.choice(["BIP", "BIP"] + BANCOR), "value": amt(rnd, 1, 500), "min": rnd.choice(["0", "0", "1", "100000u"])})
                     else:
                         t.update(type="SellCoin", args={"sell": "BIP", "buy": c, "value": amt(rnd, 1, 5000), "min": "0"})
+                elif r < 0.125:
+                    # conversions into a coin that is close to its maximum supply (CHEAP: 0.1 BIP per coin, 100 coins of headroom)
+                    q2 = rnd.random()
+                    if q2 < 0.5:
+                        t.update(type="SellCoin", args={"sell": rnd.choice(["BIP", "BIP", "CRRHUN"]), "buy": "CHEAP", "value": rnd.choice(["5u", "9u", "10u", "10u+1", "11u", "50u", "200u"]), "min": "0"})
+                    elif q2 < 0.8:
+                        t.update(type="BuyCoin", args={"buy": "CHEAP", "sell": rnd.choice(["BIP", "CRRHUN"]), "value": rnd.choice(["50u", "100u", "100u+1", "101u", "500u"]), "max": "10000000u"})
+                    else:
+                        t.update(type="SellAllCoin", args={"sell": rnd.choice(["CRRHUN", "CRRFIF"]), "buy": "CHEAP", "min": "0"})
                 elif r < 0.17:
                     c = rnd.choice(BANCOR + created)
                     s = rnd.choice(["BIP"] + BANCOR)
@@ -59,9 +69,10 @@ def markets(rnd, n, sid="M"):
                 elif r < 0.21:
                     t.update(type="SellAllCoin", args={"sell": rnd.choice(BANCOR + ["BIP"]), "buy": rnd.choice(BANCOR + ["BIP"]), "min": "0"})
                 elif r < 0.36:
-                    t.update(type="SellSwapPool", args={"coins": route(rnd), "value": amt(rnd, 1, 3000), "min": rnd.choice(["0", "0", "1", "1000000u"])})
+                    # limits: none, absurd, and tight ones (the estimate on the current reserves, exactly / one per mille below / above)
+                    t.update(type="SellSwapPool", args={"coins": route(rnd), "value": amt(rnd, 1, 3000), "min": rnd.choice(["0", "0", "1", "1000000u", "quote:1000", "quote:1000", "quote:999", "quote:1001", "quote:990"])})
                 elif r < 0.46:
-                    t.update(type="BuySwapPool", args={"coins": route(rnd), "value": amt(rnd, 1, 500), "max": rnd.choice(["100000000u", "100000000u", "1"])})
+                    t.update(type="BuySwapPool", args={"coins": route(rnd), "value": amt(rnd, 1, 500), "max": rnd.choice(["100000000u", "100000000u", "1", "quote:1000", "quote:1000", "quote:1001", "quote:999", "quote:1010"])})
                 elif r < 0.50:
                     t.update(type="SellAllSwapPool", args={"coins": route(rnd), "min": "0"})
                 elif r < 0.64:
@@ -105,12 +116,50 @@ def markets(rnd, n, sid="M"):
                     t.update(type="Send", args={"coin": rnd.choice(TOKENS + BANCOR + ["BIP", "LP:BIP:TOKA"]), "to": rnd.choice(USERS), "value": amt(rnd, 1, 100)})
                 if "Sell" not in t["type"] or "All" not in t["type"]:
                     t["gasCoin"] = rnd.choice(GAS)
+                    coins_arg = t.get("args", {}).get("coins")
+                    if coins_arg and rnd.random() < 0.5:     # the commission is paid in a coin of the route (its pool with the base coin is then used twice)
+                        t["gasCoin"] = rnd.choice(coins_arg)
                 if rnd.random() < 0.05:
                     t["gasPrice"] = rnd.choice([2, 10])
                 txs.append(t)
             steps.append({"op": "block", "txs": txs} if txs else {"op": "block"})
             if rnd.random() < 0.2:
                 steps.append({"op": "skip", "n": rnd.choice([3, 6, 12])})
+            if restarts and rnd.random() < 0.3:       # the registry, the pools and the order books are read back from the disk
+                steps.append({"op": "restart"})
         steps.append({"op": "skip", "n": 13})
+        out.append({"id": "%s%d" % (sid, k), "world": "W5", "family": "markets", "steps": steps})
+    return out
+
+
+def fee_on_route(rnd, n, sid="F"):
+    """trades whose commission coin is one of the route's coins (its pool with the base coin is used for the commission and for a
+    hop of the same transaction), with the slippage limit set at / just below / just above the estimate on current reserves"""
+    routes = [["TOKB", "TOKA", "BIP"], ["TOKA", "TOKB", "BIP"], ["CRRFIF", "BIP", "TOKA"], ["BIP", "TOKA", "TOKB"], ["TOKB", "BIP", "TOKA"],
+              ["USDTE", "BIP", "TOKB"], ["TOKA", "BIP"], ["BIP", "TOKA"], ["TOKB", "BIP", "CRRFIF"], ["TOKA", "BIP", "TOKB", "TOKA"]]
+    out = []
+    for k in range(n):
+        steps = []
+        tid = 0
+        for b in range(rnd.randint(1, 3)):
+            txs = []
+            for _ in range(rnd.randint(1, 3)):
+                tid += 1
+                rt = rnd.choice(routes)
+                gas = rnd.choice([c for c in rt if c != "BIP"] + ["BIP"])
+                t = {"id": "t%d" % tid, "from": rnd.choice(USERS), "check": True, "gasCoin": gas}
+                if rnd.random() < 0.1:
+                    t["gasPrice"] = rnd.choice([5, 50])
+                q = rnd.random()
+                if q < 0.6:
+                    t.update(type="SellSwapPool", args={"coins": rt, "value": amt(rnd, 10, 3000), "min": rnd.choice(["quote:1000", "quote:1000", "quote:999", "quote:1001", "quote:995"])})
+                elif q < 0.9:
+                    t.update(type="BuySwapPool", args={"coins": rt, "value": amt(rnd, 10, 500), "max": rnd.choice(["quote:1000", "quote:1000", "quote:1001", "quote:999", "quote:1005"])})
+                else:
+                    t.update(type="SellAllSwapPool", args={"coins": rt, "min": "0"})
+                    t.pop("gasCoin")
+                txs.append(t)
+            steps.append({"op": "block", "txs": txs})
+        steps.append({"op": "skip", "n": 2})
         out.append({"id": "%s%d" % (sid, k), "world": "W5", "family": "markets", "steps": steps})
     return out
